@@ -29,7 +29,7 @@ CHECKS = {
     "C08": ("exploration", "complete hyperoctahedral group of the field space x 3 translations (incl. a model with a spectator field that a permutation lists first), metamorphic comparison with the original labelling on the real end-to-end pipeline, incl. the group with an out-of-equilibrium particle whose mass function is transformed with the fields (synthetic relaxation collision operator)",
             "Velocities, temperatures, matchings equal; widths permuted; distances between wall centres mapped by the permutation; phases and profiles transformed pointwise.",
             "trusted: Relabel wrapper of vmc/models.py; wall-shape tolerance 5e-3 from measured reproducibility", "DESIGN.md sections 3 C08 and 8.2"),
-    "C13": ("exploration", "complete monomial basis of the quadrature's exactness class per grid size, basis variant and momentum scale (1e-10 ... 1e10); mpmath ladder for a non-polynomial family; deltaToTmunu against the oracle's own boosted momentum integral",
+    "C13": ("exploration", "complete monomial basis of the quadrature's exactness class per grid size, basis variant and momentum scale (1e-10 ... 1e10); mpmath ladder for a non-polynomial family; deltaToTmunu (on an object used before with another frame velocity) against the oracle's own boosted momentum integral",
             "Each of the four moments against the closed-form Chebyshev-moment product for every basis monomial, linearity on pairs, monotone convergence with bounds on a ladder of N, T30/T33 out-of-equilibrium parts for several plasma velocities and 1-3 species.",
             "trusted: mpmath quadrature; weights and measure written from the property statement", "DESIGN.md section 3 C13"),
     "C15": ("exploration", "exhaustive template/bag lattice x units x tolerances x velocities: Hydrodynamics against HydrodynamicsTemplateModel with oracle-derived conditioning; oracle solver as referee where the full solver is invalid",
@@ -38,7 +38,7 @@ CHECKS = {
     "C18": ("model_checking", "explicit-state BFS over all operation sequences to depth 3/4 on real InterpolatableFunction objects (5-6 object kinds x 3 initial states x 16 mode pairs; adaptive lattice with threshold 3), states merged by digest, reference model stepped in lock-step",
             "After every transition: abscissae strictly increasing and finite, non-finite rows absent individually, counters consistent; every evaluation/derivative has the input's shape and equals the oracle's own CubicSpline inside and exactly the selected mode's prescription outside; write+read round trip.",
             "trusted: scipy CubicSpline in the oracle (same boundary condition as the code); quick: 3.3e5 states, 2.4e6 transitions, no caps", "DESIGN.md sections 3 C18 and 8.2"),
-    "C02": ("exploration", "exhaustive EOS x Tn x units x tolerance x wall-velocity lattice on the real solver; analytic-EOS flux oracle; all ordered call sequences (depth 2, thorough 3) on one Hydrodynamics/template object against fresh objects; other hydrodynamic temperature windows; own xi-integrating exact-matching solver for the fallback clause",
+    "C02": ("exploration", "exhaustive EOS x Tn x units x tolerance x wall-velocity lattice on the real solver; analytic-EOS flux oracle; all ordered call sequences (depth 2, thorough 3) on one Hydrodynamics/template object against fresh objects; other hydrodynamic temperature windows; every Hydrodynamics object built on a Thermodynamics object that served another Hydrodynamics at another Tn before; velocities also handed over as 0-d arrays (argument untouched); own xi-integrating exact-matching solver for the fallback clause",
             "Every point of a fixed lattice (bag/template/two-step/traced EOS, both sound-speed orderings, 16 velocities on both sides of c_b and v_J, tight and default solver tolerances) is run through Hydrodynamics.findMatching/findHydroBoundaries and the energy/momentum fluxes are recomputed from the analytic EOS with a tolerance = solver tolerance x finite-difference conditioning. Lattice agreement, not a proof over the reals.",
             "trusted: analytic EOS algebra in vmc/oracles/eos.py, scipy brentq/solve_ivp in the oracle; admissibility predicate stated in evidence; known finding D9 listed by input", "DESIGN.md section 3 C02"),
     "C09": ("exploration", "exhaustive lattice of potentials x temperatures x wall shapes x grid sizes on the real pressure integral; two-tier oracle (independent quadrature for every shape, Delta V for resolved shapes)",
@@ -47,22 +47,22 @@ CHECKS = {
     "C10": ("exploration", "exhaustive lattice of traced models x Tn x range window x units x 40 temperatures per phase (inside, at and beyond both table ends); relations recomputed from the reported p alone; the same relation set on objects with a trace/use/re-trace history",
             "dp, ddp against exact-rational 5-point stencils of the reported p, e/w/cs^2/de recomputed by the oracle, continuity across the four range boundaries, p == -V(min) inside the range against the closed-form minimum, alpha against its definition, and the no-setExtrapolate history.",
             "trusted: closed-form phases of vmc/models.py; tolerance of p=-V(min) is the configured phaseTracerTol", "DESIGN.md section 3 C10"),
-    "C11": ("model_checking", "exhaustive lattice model x phase x start x requested range x step x tolerance x re-minimisation x units on the real tracer with closed-form minima/spinodals, plus BFS over re-trace histories (row invariants only)",
+    "C11": ("model_checking", "exhaustive lattice model x phase x start x requested range x step x tolerance x re-minimisation x units on the real tracer with closed-form minima/spinodals, on potential objects that were used before under another configuration of their derivative scales, plus BFS over re-trace histories (row invariants only)",
             "Every tabulated row: |grad V| within an rTol-derived bound, positive-definite analytic Hessian, stored V, continuity against the implicit-function derivative (detects branch hops), mid-point interpolation against the exact minimum; end of table vs closed-form fold/instability temperatures and end flags; critical temperature vs closed form; histories of traces explored by BFS with table digests.",
             "trusted: closed-form phases/spinodals of vmc/models.py; continuous bifurcations ('merge' points) are kept 5% away from requested ranges; what a re-trace does with a new request is recorded as an observation, not judged (the property quantifies over inputs/configurations)", "DESIGN.md section 3 C11"),
     "C20": ("exploration", "complete enumeration of the shipped table rows (thorough) / every 25th row + all rows near the non-analytic points + fourth-difference smoothness on every row (quick); direct integrals on a fixed argument lattice against 35-digit mpmath with break points; one directly-evaluating potential object in long use (640-temperature scan, then the property's limits); BFS over construction histories of the shared default integrals",
             "Real and imaginary parts, value and derivative of Jb/Jf against the defining integrals; closed forms at 0 and for Im J; table rows, spline slopes and mid-points against the reference with region-dependent derived bands; one-loop thermal potential in the massless/heavy limits and continuity in the masses; Coleman-Weinberg term against its closed form for all imaginary-part options.",
             "trusted: mpmath quadrature (self-checked against the Bessel series and the closed-form imaginary part on every reference value)", "DESIGN.md section 3 C20"),
-    "C12": ("model_checking", "exhaustive lattice (backgrounds x particles x collision operators x 4 basis combinations x grid sizes x derivative mode) plus BFS over all call histories to depth 3/4 on a real BoltzmannSolver with state digests",
+    "C12": ("model_checking", "exhaustive lattice (backgrounds x particles x collision operators x 4 basis combinations x grid sizes x derivative mode) plus a solver configured away from its defaults in the finite-difference cross-check, plus BFS over all call histories to depth 3/5 on a real BoltzmannSolver with state digests",
             "Homogeneous background => |deltaF| below a derived rounding bound; backward error of the dense solve; basis independence of deltaF and of the four moments via the harness' own basis functions; finite-difference vs spectral source/Liouville on a refinement ladder with Taylor bounds; every operation sequence over {setBackground A/B, solve, getDeltas, caller scribbles on its background} to the stated depth compared bitwise with a fresh solver.",
             "trusted: synthetic non-singular collision operators generated by the harness (the LFS collision files are pointers), own closed-form source/operator assembly", "DESIGN.md section 3 C12"),
-    "C14": ("fault_enumeration", "complete enumeration of missing-file subsets (2^(n^2), n<=3), per-position size/basis/dataset faults, oversize targets, fresh and after a good load; all load sequences of length <=3; complete-basis operator checks for load/changeBasis/interpolation",
+    "C14": ("fault_enumeration", "complete enumeration of missing-file subsets (2^(n^2), n<=3), per-position size/basis/dataset faults, oversize targets, fresh and after a good load; all load sequences of length <=3 (thorough 4); complete-basis operator checks for load/changeBasis/interpolation",
             "Harness-written HDF5 directories with decodable full-rank tensors: load equality per ordered pair, operator action on complete bases before/after changeBasis, interpolation against mpmath Lagrange/Chebyshev references, per-pair independence of other particles, and for every fault pattern CollisionLoadError plus the previously installed array kept bit-identical.",
             "trusted: mpmath reference matrices in vmc/oracles/c14_oracle.py, h5py", "DESIGN.md section 3 C14"),
-    "C16": ("model_checking", "complete basis per (M,N,direction,endpoints) against 50-digit mpmath references, all rank-2 label pairs and rank-3/4 axis patterns, plus BFS over operation sequences of length <=3 tracking the represented function",
+    "C16": ("model_checking", "complete basis per (M,N,direction,endpoints) on both grid classes against 50-digit mpmath references with the oracle's own nodes, homogeneity over 2^-60..2^60, all rank-2 label pairs and rank-3/4 axis patterns, plus BFS over operation sequences of length <=3 (thorough 4) tracking the represented function",
             "Linear maps on a finite-dimensional space are checked on every basis vector (change of basis, evaluate, derivative, integrate with computed exactness class, matrices), multi-axis arrays as tensor products, linearity through the arithmetic dunder methods, and an explicit-state search over operation histories with the represented function as the model.",
             "trusted: mpmath Chebyshev/cardinal references; exhaustive for the listed grid sizes only; indexing (__getitem__) is outside the property", "DESIGN.md section 3 C16"),
-    "C17": ("model_checking", "exhaustive lattice of Grid3Scales/Grid parameters x spacings x sizes, plus BFS over all histories of <=3 rescaling calls with the differential oracle 'rescaled grid == freshly constructed grid'",
+    "C17": ("model_checking", "exhaustive lattice of Grid3Scales/Grid parameters x spacings x sizes, maps must leave their arguments and the grid's coordinate arrays untouched, plus BFS over all histories of <=3 rescaling calls with the differential oracle 'rescaled grid == freshly constructed grid'",
             "Strict monotonicity on collocation + dense points, z(0)==centre, Jacobian against a 6th-order difference/complex step with a Cauchy bound, slope L/r at the centre, compactify(decompactify(x))==x, cached arrays == recomputed, EOM._updateGrid against a field-by-field oracle; BFS digests every public attribute and method result in every reachable state.",
             "trusted: mpmath cross-check of the map's rounding bound; depth 3 completed, no caps", "DESIGN.md section 3 C17"),
     "C19": (
